@@ -130,7 +130,7 @@ def run(chk):
     if model_violation:
         log("[C13] WaMap violates %s in the model" % model_violation)
     # 2. every transition of a bounded model, on the real runtime, for every key kind
-    em = (6, [7, 8], 7) if thorough else (5, [7], 7)
+    em = (5, [7, 8], 7) if thorough else (5, [7], 7)   # (6, [7, 8], 7) does not finish in 50 minutes
     res = common.run_tlc("map", "WaMap", "em.cfg", files={"em.cfg": cfg(em[0], em[1], em[2], True, invariants=False)},
                          collect_prefix='<<"T"', timeout=3000)
     chk.tlc(res, "emit keys=%d vals=%s ops=%d" % em)
